@@ -256,7 +256,7 @@ def _prism_init_cases():
 
 # --------------------------------------------------------------------------- PRISM.cost  (C01, C03)
 
-@contract('pyPRISM/core/PRISM.py::PRISM.cost', props=['C01', 'C03', 'C06', 'C12'])
+@contract('pyPRISM/core/PRISM.py::PRISM.cost', props=['C01', 'C02', 'C03', 'C04', 'C06', 'C12'])
 def PRISM_cost(self, x):
     """One evaluation of the self-consistency map, written from the PRISM equation and the closure definitions:
        G = x/r (trial gamma);  c_ab = closure_ab(r, G_ab) for every pair;  C = to_fourier(c);
